@@ -470,7 +470,7 @@ class Reaction:
     def __isub__(self, rxn):
         if rxn == 0 or rxn is None or not rxn.has_reaction(): return self
         rxn = self._math_compatible_reaction(rxn, copy=False)
-        stoichiometry = self._stoichiometry*self.X + rxn._stoichiometry*rxn.X
+        stoichiometry = self._stoichiometry*self.X - rxn._stoichiometry*rxn.X
         self._stoichiometry = stoichiometry/-(stoichiometry[self._reactant_index])
         self.X = self.X - rxn.X
         return self
